@@ -60,16 +60,55 @@ def check(ctx):
 
 # ------------------------------------------------------------------ the alias rule (R6 anchor)
 
+def _peel_rewrites(v):
+    """strip re.sub(p, r, X) / X.replace(a, b) / X.translate(..) wrappers -> (X, [(what, pattern, replacement|None)])"""
+    out = []
+    while True:
+        if v[0] == "meth" and v[1] == ("global", "re") and v[2] in ("sub", "subn") and len(v[3]) >= 3:
+            pat, repl = v[3][0], v[3][1]
+            out.append(("re.sub", pat[1] if pat[0] == "const" else show(pat), repl[1] if repl[0] == "const" else None))
+            v = v[3][2]
+        elif v[0] == "meth" and v[2] == "replace" and len(v[3]) >= 2 and v[1][0] != "global":
+            a, b = v[3][0], v[3][1]
+            out.append(("replace", a[1] if a[0] == "const" else show(a), b[1] if b[0] == "const" else None))
+            v = v[1]
+        elif v[0] == "meth" and v[2] == "translate" and v[1][0] != "global":
+            out.append(("translate", show(v[3][0])[:40] if v[3] else "", None))
+            v = v[1]
+        else:
+            return v, out
+
 def _alias_rule(ctx, pkg):
     fn = pkg.method("Species", "alias")
     ctx.saw(SP, "Species.alias")
     fl = Flow(fn, SP)
     st = [f for f in fl.facts if f.kind == "attrstore" and f.target == "_alias"]
     out = {"ok": False, "sanitises": False, "line": fn.lineno}
-    if len(st) != 1:
-        ctx.unrec("R6", "Species.alias", (SP, fn.lineno), f"expected one assignment of self._alias in the getter, found {len(st)}")
+    if not st:
+        ctx.unrec("R6", "Species.alias", (SP, fn.lineno), "no assignment of self._alias in the getter")
         return out
+    # the first store builds the alias; later stores may only post-process it (value is a function of self._alias)
+    post = []
     v = simp(st[0].value)
+    for extra in st[1:]:
+        w, wr = _peel_rewrites(simp(extra.value))
+        if w != ("attr", SELF, "_alias") or not wr:
+            ctx.unrec("R6", "Species.alias", (SP, extra.line), f"a second assignment of self._alias is not a rewrite of the first: {show(simp(extra.value))[:100]}")
+            return out
+        post += [(extra.line, r) for r in wr]
+    v, wr = _peel_rewrites(v)
+    post += [(st[0].line, r) for r in wr]
+    # two species are one ODE slot exactly when their aliases are equal: every rewrite of the alias must keep distinct
+    # names distinct.  Deleting characters does not ('H2*' -> 'H2I' is the alias of 'H2').
+    for ln, (what, pat, repl) in post:
+        k = f"Species.alias:injective:{what}({pat!r})"
+        if repl == "":
+            ctx.bad("R6", k, (SP, ln), "the alias is rewritten by DELETING characters: species whose names differ only in the deleted characters (an excited state 'H2*' and 'H2', isomers 'c-C3H2'/'cC3H2') "
+                    "get one identifier, hence one IDX_ macro and one ODE variable", expected="an injective function of (surface, basename, charge)", found=f"{what}({pat!r}, '')")
+        elif repl is None:
+            ctx.unrec("R6", k, (SP, ln), "alias rewrite with a non-literal replacement")
+        else:
+            ctx.ok("R6", k, (SP, ln), f"characters are substituted by {repl!r}, none deleted (collisions between the substituted characters themselves are not decided)")
     out["line"] = st[0].line
     parts = None
     if v[0] == "meth" and v[2] == "format" and v[1][0] == "const" and re.fullmatch(r"(\{\})+", v[1][1] or ""):
@@ -699,6 +738,8 @@ MUTANTS = [
     {"name": "py-index-sorted", "file": PYIDX, "old": "{% for spec in network.species %}", "new": '{% for spec in network.species | sort(attribute="name") %}', "rules": ["R4"]},
     {"name": "macro-rejects-surface", "file": MACROS, "old": "{% for spec in network.species %}\n#define IDX_", "new": '{% for spec in network.species | rejectattr("is_surface") %}\n#define IDX_', "rules": ["R4"]},
     {"name": "alias-I-times-charge", "file": SP, "old": '"I" * (self.charge + 1) if self.charge >= 0', "new": '"I" * self.charge if self.charge >= 0', "rules": ["R6"]},
+    {"name": "alias-strip-nonword", "file": SP, "old": "        return self._alias\n\n    @alias.setter", "new": "        self._alias = re.sub(r'\\W', '', self._alias)\n        return self._alias\n\n    @alias.setter", "rules": ["R6"]},
+    {"name": "alias-strip-star-inline", "file": SP, "old": '"M" * abs(self.charge),\n            )', "new": '"M" * abs(self.charge),\n            ).replace("*", "")', "rules": ["R6"]},
     {"name": "alias-single-M", "file": SP, "old": 'else "M" * abs(self.charge),', "new": 'else "M",', "rules": ["R6"]},
     {"name": "grackle-HeII", "file": PATCH, "old": '        "HeII",\n        "HeIII",', "new": '        "HeI",\n        "HeIII",', "rules": ["R6"]},
     {"name": "wrapper-set-deleted", "file": WRAP, "old": "        {% set specnum = species.network | map(attribute='alias') | map('suffix', \"Num\") -%}\n        {% for s, n in zip(network.species, specnum) -%}\n          BaryonField", "new": "        {% for s, n in zip(network.species, specnum) -%}\n          BaryonField", "rules": ["R8"]},
